@@ -375,16 +375,20 @@ class Chain2:
 
     # ---- the common clauses
     def check_common(self, ctx, cfg, key, who, delegates=(), conversions=(), allow_unwrap=False):
-        """who-may-call, no-loop, propagation, explicit-error; returns the number of distinct append sites"""
+        """who-may-call, no-loop, propagation, explicit-error; returns the number of appends on the longest path (a floor for
+        "the rule looked at something": counted per evaluation, so a table-driven `try_for_each` with one call site counts as
+        what it appends)"""
         where = self.fn["sp"]
         if self.error:
             ctx.violation(key + "|paths", "%s: %s" % (who, self.error), cfg=cfg, where=where)
             return 0
         sites = {}
+        longest = 0
         all_guards = {s.guard for p in self.paths for s in self.segments(p) if s.guard is not None}
         for p in self.paths:
             out = self.outcome(p)
             segs = self.segments(p)
+            longest = max(longest, len(segs))
             failed = None
             for i, e in enumerate(p.effects):
                 if e.args and array_place(e.args[0]) is not None and not self.touches(e.args):
@@ -435,7 +439,7 @@ class Chain2:
                 if s.guard is not None and out in ("ok", "returned"):
                     ctx.oblige(key + "|be-guard|" + S.show(s.guard[0])[:50], self.guard_holds(p, s.guard),
                                "%s writes %s as %d big-endian bytes without checking that it is <= %d on this path: a larger value would wrap" % (who, S.show(s.guard[0]), s.n, s.guard[1]), cfg=cfg, where=where)
-        return len(sites)
+        return longest
 
 
 def term_type(F, fn, t):
